@@ -7,6 +7,10 @@ namespace NessaiVerif.Reparam
 
 variable {K : Type} [Field K] [LinearOrder K] [IsStrictOrderedRing K]
 
+omit [Field K] [IsStrictOrderedRing K] in
+theorem inUniformSupport_iff' (x lo hi : K) : inUniformSupport x lo hi = true ↔ lo ≤ x ∧ x ≤ hi := by
+  unfold inUniformSupport; simp
+
 /-- `pre_prior_bounds[p]` -/
 def Rtb.P0 (r : Rtb K) : K := (r.preF r.p0).1
 def Rtb.P1 (r : Rtb K) : K := (r.preF r.p1).1
@@ -162,6 +166,30 @@ theorem image_upper (r : Rtb K) (hp : r.hasPrimePrior = true) (t : InvType) (hin
       · have : -v * (r.b1 - r.b0) ≥ 0 := mul_nonneg (by linarith) hpos.le
         nlinarith
       · rw [hc]; simp; field_simp; ring
+
+/-- **prime prior = prior / J up to a constant** for the affine family: with a uniform original prior of density `c` on the
+box and no hooks, the Jacobian factor is one positive constant, so `prior / J` is constant on the image; the offered prime
+prior (`log_uniform_prior`, value 1 on the stored bounds) equals `k · c / J(x)` at the image of every prior point, with one
+constant `k` for all points and sign bits. -/
+theorem prime_prior_value (r : Rtb K) (lo hi : K) (himg : IsImage r lo hi) (hb : r.b0 < r.b1) (hf : r.FactorOK)
+    (hpre : r.pre = none) (hpost : r.post = none) (c : K) (hc : c ≠ 0) :
+    ∃ k : K, ∀ x neg, r.p0 ≤ x → x ≤ r.p1 →
+      uniformPriorFactor (rtbFwd r neg x).1 lo hi = k * (c / (rtbFwd r neg x).2) := by
+  have hJ0 : 0 < (rtbCore r false 0).2 := rtbCore_jac_pos r false 0 hb hf
+  refine ⟨(rtbCore r false 0).2 / c, fun x neg h0 h1 => ?_⟩
+  have hP0 : r.P0 = r.p0 := by unfold Rtb.P0 Rtb.preF; rw [hpre]
+  have hP1 : r.P1 = r.p1 := by unfold Rtb.P1 Rtb.preF; rw [hpre]
+  have hfwd : rtbFwd r neg x = ((rtbCore r neg x).1, 1 * (rtbCore r neg x).2 * 1) := by
+    unfold rtbFwd Rtb.preF Rtb.postF; rw [hpre, hpost]
+  have hin := himg.1 x neg (by rw [hP0]; exact h0) (by rw [hP1]; exact h1)
+  rw [hfwd]
+  simp only [one_mul, mul_one]
+  have hs : inUniformSupport (rtbCore r neg x).1 lo hi = true := (inUniformSupport_iff' _ _ _).mpr hin
+  unfold uniformPriorFactor
+  rw [hs, rtbCore_jac_neg r neg x 0]
+  have : (rtbCore r false 0).2 ≠ 0 := ne_of_gt hJ0
+  simp only [if_true]
+  field_simp
 
 omit [Field K] [IsStrictOrderedRing K] in
 theorem inUniformSupport_iff (x lo hi : K) : inUniformSupport x lo hi = true ↔ lo ≤ x ∧ x ≤ hi := by
